@@ -6,6 +6,7 @@ from collections import OrderedDict
 
 from .algorithm import fill_in_let, expand_macros
 from .algorithm.walkers import *
+from jaqalpaq import _verif_trace
 
 
 def parse_jaqal_output_list(circuit, output):
@@ -306,6 +307,7 @@ class OutputParser(TraceVisitor):
         mr = Readout(nxt, self.readout_index)
         subcircuit.accept_readout(mr)
         self.res.append(mr)
+        _verif_trace.emit("visit", sub=self.index, readout=self.readout_index, value=int(nxt))
         self.readout_index += 1
 
 
